@@ -1,5 +1,15 @@
-(* C01 — shape and element count never disagree on any result of any operation chain. *)
-From ArrRs Require Import Index Axis Reshape_proofs Prog Prog_proofs.
+(* C01 — shape and element count never disagree on any result of any operation chain.
+   PROVED: new / create / reshape accept exactly the fitting element lists; every call of the FULL program language
+   (ProgFull.v: the constructors, the reshaping family and axis permutations of Prog.v plus broadcasting, flip / roll /
+   rot90, delete / insert / repeat / trim, append / concatenate / the five stacks, the six splits, sort / unique, any
+   lane operation through apply_along_axis, reductions and scans with arbitrary bodies, elementwise map / two-operand
+   lifting with arbitrary scalar functions, tril / triu / diag / diagflat / eye / tri / identity / full) returns only
+   well-formed arrays, single results and list members alike; hence every array reachable by any finite program over
+   these operations from well-formed inputs is well formed (C01_full_run_wf); metadata agree with the shape.
+   NOT IN THE LANGUAGE (their results are covered by the universal monitor of the correspondence run only): the
+   heterogeneous results (pairs from broadcast / zip, index arrays from argsort / argmax / count_nonzero, bit and
+   string operations, linear algebra), whose well-formedness lemmas exist separately where stated. *)
+From ArrRs Require Import Index Axis Reshape_proofs Prog Prog_proofs Sort ProgFull ProgFull_proofs.
 
 (* asking for an array whose element list does not fit the requested shape is refused with an error,
    never answered with an inconsistent array; otherwise the result is exactly that array *)
@@ -30,6 +40,15 @@ Theorem C01_run_wf : forall (T : Type) (dflt : T) (p : list opcall) env,
   Forall wf env -> Forall wf (run dflt p env).
 Proof. exact @run_wf. Qed.
 
+(* the full language: every modelled array -> array(s) operation *)
+Theorem C01_full_op_wf : forall (T : Type) (dflt zero one : T) (is_zero : T -> bool) (ltb eqb : T -> T -> bool) env c rs,
+  Forall wf env -> run_fcall dflt zero one is_zero ltb eqb env c = Ok rs -> Forall wf rs.
+Proof. exact @run_fcall_wf. Qed.
+
+Theorem C01_full_run_wf : forall (T : Type) (dflt zero one : T) (is_zero : T -> bool) (ltb eqb : T -> T -> bool) p env,
+  Forall wf env -> Forall wf (frun dflt zero one is_zero ltb eqb p env).
+Proof. exact @frun_wf. Qed.
+
 (* reported length, dimension count and emptiness agree with the shape and the element list *)
 Theorem C01_meta : forall (T : Type) (a : arr T), wf a ->
   len a = length (elems a) /\ len a = prod (shape a) /\ ndim a = length (shape a) /\
@@ -45,3 +64,14 @@ Example C01_nonvacuous :
 Proof.
   cbn zeta. split; [vm_compute; reflexivity|]. split; [apply run_wf; constructor | vm_compute; reflexivity].
 Qed.
+
+(* non-vacuity of the full language: constructors, a split, a join of the pieces in exchanged order, flip, sort,
+   a lane reduction, a repeat — nine calls, twelve arrays *)
+Example C01_full_nonvacuous :
+  let p := [FBase (CCreate (map Z.of_nat (seq 0 12)) [2;6] None); FArraySplit 0 4 (Some 1);
+            FConcat [4;1;3;2] (Some 1); FFlip 5 (Some [(-1)%Z]); FSort 6 (Some 1%Z) (Ok Heapsort);
+            FReduce (fun l => Ok (fold_left Z.add l 0%Z)) 7 (Some 0%Z); FRepeat 8 [2] (Some 0);
+            FTril 0 1%Z; FStack [0;10] (Some 2)] in
+  let env := frun 0%Z 0%Z 1%Z (Z.eqb 0) Z.ltb Z.eqb p [] in
+  map shape env = [[2;6]; [2;2]; [2;2]; [2;1]; [2;1]; [2;6]; [2;6]; [2;6]; [6]; [12]; [2;6]; [2;6;2]] /\ Forall wf env.
+Proof. cbn zeta. split; [vm_compute; reflexivity | apply frun_wf; constructor]. Qed.
